@@ -124,10 +124,18 @@ def load_corpus(pid: str) -> list:
 
 
 def safe_impl(mod, case):
+    """Run the implementation driver.  An exception that escapes it is classified by where it was
+    raised: inside lenskit (/repo/src, or a library called from there) -> the implementation failed
+    on this input; inside the harness -> the driver no longer fits the code (broken correspondence)."""
     try:
         return mod.run_impl(case), None
-    except Exception as e:  # harness-level failure (not an exception the property talks about)
-        return None, f"{type(e).__name__}: {e}\n{traceback.format_exc()[-1500:]}"
+    except Exception as e:
+        frames = traceback.extract_tb(e.__traceback__)
+        harness_dir = str(common.VERIF / "harness")
+        src_dir = str(common.SRC)
+        last_harness = max((k for k, f in enumerate(frames) if f.filename.startswith(harness_dir)), default=-1)
+        origin = "impl" if any(f.filename.startswith(src_dir) for f in frames[last_harness + 1:]) else "driver"
+        return None, f"[{origin}] {type(e).__name__}: {e}\n{traceback.format_exc()[-1500:]}"
 
 
 def run(mod, tier: str, seed: int, replay: str | None = None, max_cases: int | None = None) -> int:
@@ -213,10 +221,18 @@ def run(mod, tier: str, seed: int, replay: str | None = None, max_cases: int | N
             found_input = True
             small = shrink_case(mod, case, key)
             rep.violation(key, what, {"case": small, "observation": (mod.run_impl(small) if small is not case else observations[i])})
-    for i, err in harness_errors[:5]:
-        rep.violation(f"harness-error:{common.digest(cases[i])}", f"implementation driver failed: {err[:500]}",
+    impl_err = [(i, e) for i, e in harness_errors if e.startswith("[impl]")]
+    drv_err = [(i, e) for i, e in harness_errors if not e.startswith("[impl]")]
+    for i, err in impl_err[:5]:
+        # lenskit itself raised something the driver does not expect on a generated (valid) input
+        rep.violation(f"harness-error:{common.digest(cases[i])}", f"the implementation raised on a generated input: {err[:500]}",
                       {"case": cases[i]})
         found_input = True
+    if drv_err:
+        i, err = drv_err[0]
+        broken.append(f"implementation driver no longer fits the code on {len(drv_err)} case(s) "
+                      f"(first: case {i}, digest {common.digest(cases[i])}): {err[:400]}")
+        rep.coverage["driver_failure_case"] = cases[i]
 
     # disagreements where the implementation still satisfies the property: model out of date
     stale = [i for i in disagree if not mod.oracle(cases[i], observations[i])]
